@@ -26,6 +26,12 @@ Expected(t) ==
     [] t.rule = "MD026" -> Verdict_MD026(t.B, [punctuation |-> SetOf(t.cfg.punctuation)])
     [] t.rule = "MD041" -> Verdict_MD041(t.L, t.B, t.cfg)
     [] t.rule = "MD022" -> Verdict_MD022(t.L, t.B)
+    [] t.rule = "MD004" -> Verdict_MD004(t.B, t.cfg)
+    [] t.rule = "MD018" -> Verdict_MD018(t.L)
+    [] t.rule = "MD031" -> Verdict_MD031(t.L, t.B)
+    [] t.rule = "MD032" -> Verdict_MD032(t.L, t.B)
+    [] t.rule = "MD042" -> Verdict_MD042(t.I)
+    [] t.rule = "MD045" -> Verdict_MD045(t.I)
 Judge ==
   /\ verdict = "run"
   /\ LET t == Traces[tid][1]
